@@ -63,8 +63,9 @@ Record mach := mkM {
 
 Record task := mkT {
   t_pc : nat;                 (* number of finished operations = index of the current one *)
-  t_rest : list op;           (* current operation first; a YieldAll keeps only the items not yet pushed *)
-  t_sub : sub;
+  t_rest : list op;           (* the operations not yet finished, current one first *)
+  t_sub : sub;                (* current Yield *)
+  t_sent : nat;               (* current YieldAll: number of its items already pushed into the channel *)
   t_selfwoke : bool;          (* current SelfWake has already returned Pending *)
   t_done : bool               (* Fuse::is_terminated: the future returned and was dropped *)
 }.
@@ -163,12 +164,12 @@ Fixpoint send_all (xs : list N) (m : mach) : list N * mach * bool :=
 (* One poll of the closure's future: run operations until one is pending or
    the closure returns.  When the closure returns, its captured Yield handle
    (if still held) is dropped with it. *)
-Fixpoint run_task (pc : nat) (rest : list op) (sb : sub) (sw : bool) (m : mach) : task * mach :=
+Fixpoint run_task (pc : nat) (rest : list op) (sb : sub) (sent : nat) (sw : bool) (m : mach) : task * mach :=
   match rest with
-  | [] => (mkT pc [] NotSent false true, drop_sender m)
+  | [] => (mkT pc [] NotSent 0 false true, drop_sender m)
   | o :: rest' =>
-      let next (m' : mach) := run_task (S pc) rest' NotSent false (log_done pc m') in
-      let stay (o' : op) (sb' : sub) (sw' : bool) (m' : mach) := (mkT pc (o' :: rest') sb' sw' false, m') in
+      let next (m' : mach) := run_task (S pc) rest' NotSent 0 false (log_done pc m') in
+      let stay (sb' : sub) (sent' : nat) (sw' : bool) (m' : mach) := (mkT pc rest sb' sent' sw' false, m') in
       match o with
       | Yield x =>
           if negb (m_open m) then next m else          (* no handle any more *)
@@ -177,21 +178,21 @@ Fixpoint run_task (pc : nat) (rest : list op) (sb : sub) (sw : bool) (m : mach) 
               let '(m1, rdy) := poll_ready m in
               if rdy then
                 let '(m2, flushed) := poll_ready (start_send x m1) in
-                if flushed then next m2 else stay o SentWaitingFlush sw m2
-              else stay o NotSent sw m1
+                if flushed then next m2 else stay SentWaitingFlush sent sw m2
+              else stay NotSent sent sw m1
           | SentWaitingFlush =>                        (* Send::poll with the item gone: poll_flush only *)
               let '(m1, flushed) := poll_ready m in
-              if flushed then next m1 else stay o SentWaitingFlush sw m1
+              if flushed then next m1 else stay SentWaitingFlush sent sw m1
           end
       | YieldAll xs =>
           if negb (m_open m) then next m else
-          let '(xs', m1, rdy) := send_all xs m in
-          if rdy then next m1 else stay (YieldAll xs') sb sw m1
+          let '(xs', m1, rdy) := send_all (skipn sent xs) m in
+          if rdy then next m1 else stay sb (Nat.sub (length xs) (length xs')) sw m1
       | SelfWake =>
-          if sw then next m else stay o sb true (wake_root m)
+          if sw then next m else stay sb sent true (wake_root m)
       | Wait k =>
           let '(m1, rdy) := wait_poll k m in
-          if rdy then next m1 else stay o sb sw m1
+          if rdy then next m1 else stay sb sent sw m1
       | DropHandle => next (drop_sender m)
       end
   end.
@@ -205,7 +206,7 @@ Definition poll_next (st : gstate) : gstate * poll_result :=
   (* let mut task_done = this.task.is_terminated();
      if let Poll::Ready(res) = this.task.poll(cx) { this.res.replace(res); task_done = true; } *)
   let '(t1, m1) := if t_done t then (t, g_m st)
-                   else run_task (t_pc t) (t_rest t) (t_sub t) (t_selfwoke t) (g_m st) in
+                   else run_task (t_pc t) (t_rest t) (t_sub t) (t_sent t) (t_selfwoke t) (g_m st) in
   let res1 := if negb (t_done t) && t_done t1 then Some (g_ret st) else g_res st in
   let task_done := t_done t1 in
   (* if !task_done { return Pending }  match this.res.take() { Some(res) => Complete(res), None => None } *)
@@ -230,7 +231,7 @@ Definition is_terminated (st : gstate) : bool :=
 (* ------------------------------------------------------------------- runs *)
 Definition init_m : mach := mkM [] false false true false [] None false [].
 Definition init (p : program) : gstate :=
-  mkG (mkT 0 (p_ops p) NotSent false false) init_m (p_ret p) None false.
+  mkG (mkT 0 (p_ops p) NotSent 0 false false) init_m (p_ret p) None false.
 
 (* what the harness records for each poll *)
 Record observation := Ob {
